@@ -1,89 +1,147 @@
 /-
-The documented comparison between an expected and an actual result (results.go `assert`),
-restricted to what the deterministic fragment of C02 uses: no timeout, no query parameters, no
-alternative codes, no HTTP status.
+Specification of property C03: when does a reported result *agree* with the expected one, in the
+words of the statement.  `Agree` is a conjunction of named clauses; each clause is stated by
+bounded quantification over positions, so it is decidable and the driver evaluates exactly this
+definition.  `canon` (what "joined or split on commas" means) is the code's canonicalisation; its
+declarative content is the lemma `canon_join` in `Props/C03.lean`.
+Core Lean only.
 -/
-import ConfModel.Model.Echo
-namespace ConfModel.Echo
+import ConfModel.Model.Assert
+namespace ConfModel.Agree
+open ConfModel.Assert
 
-/-- Go `strings.ToLower` on ASCII (header names are ASCII tokens) -/
-def lower (s : String) : String := String.ofList (s.toList.map Char.toLower)
+/-- every expected entry has an actual entry of the same name (up to case) whose values are
+equal after canonicalisation; further actual entries are allowed -/
+def Subsumed (exp act : List Header) : Prop :=
+  ∀ h ∈ exp, ∃ h' ∈ act, lower h'.name = lower h.name ∧ canon h.values = canon h'.values
 
-/-- `canonicalizeHeaderVals`: split on commas, drop one space around interior commas -/
-def canonPart (i last : Nat) (part : List Char) : List Char :=
-  let p1 := if i > 0 then (match part with | ' ' :: t => t | p => p) else part
-  if i < last then (match p1.reverse with | ' ' :: t => t.reverse | _ => p1) else p1
+/-- both absent, or the echoed timeout lies in `[max 0 (t - grace), t]` -/
+def TimeoutAgree (grace : Int) (exp act : Option Int) : Prop :=
+  match exp, act with
+  | none, none => True
+  | some t, some u => max 0 (t - grace) ≤ u ∧ u ≤ t
+  | _, _ => False
 
-def splitComma (s : List Char) : List (List Char) :=
-  s.foldr (fun c acc => if c == ',' then [] :: acc else
-    match acc with
-    | [] => [[c]]
-    | h :: t => (c :: h) :: t) [[]]
+/-- echoed request information: the echoed requests are the expected ones, in order; for the first
+(or only) response also headers, timeout and — when both sides list any — query parameters -/
+def ReqInfoAgree (grace : Int) (first : Bool) (e a : ReqInfo) : Prop :=
+  (first = true →
+    Subsumed e.headers a.headers ∧ TimeoutAgree grace e.timeoutMs a.timeoutMs ∧
+    (e.queryParams ≠ [] → a.queryParams ≠ [] → Subsumed e.queryParams a.queryParams)) ∧
+  a.requests = e.requests
 
-def canonVal (v : String) : List String :=
-  let parts := splitComma v.toList
-  let last := parts.length - 1
-  (parts.zipIdx.map (fun (p, i) => String.ofList (canonPart i last p)))
+/-- same number of payloads; at every index the same bytes and agreeing request information -/
+def PayloadsAgree (grace : Int) (e a : List Payload) : Prop :=
+  a.length = e.length ∧
+  ∀ x ∈ (e.zip a).zipIdx,
+    x.1.2.data = x.1.1.data ∧
+    ReqInfoAgree grace (x.2 == 0) (x.1.1.reqInfo.getD .empty) (x.1.2.reqInfo.getD .empty)
 
-def canon (vals : List String) : List String := vals.flatMap canonVal
-
-/-- Go: `actualHeaders[strings.ToLower(name)] = vals` over the list — the last entry wins -/
-def lookupLast (hs : List Hdr) (name : String) : Option (List String) :=
-  (hs.reverse.find? (fun h => lower h.name == name)).map (·.vals)
-
-/-- `checkHeaders` reports nothing -/
-def subsumed (exp act : List Hdr) : Bool :=
-  exp.all (fun h => match lookupLast act (lower h.name) with
-    | none => false
-    | some av => canon h.vals == canon av)
-
-/-- `checkRequestInfo` reports nothing (both arguments may be absent) -/
-def infoAgree (e a : Option ReqInfo) (verifyHeaders : Bool) : Bool :=
-  (if verifyHeaders then subsumed ((e.map (·.hdrs)).getD []) ((a.map (·.hdrs)).getD []) else true) &&
-  ((e.map (·.reqs)).getD [] == (a.map (·.reqs)).getD [])
-
-def detailAgree (e a : Detail) : Bool :=
+def DetailAgree (grace : Int) (e a : Detail) : Prop :=
   match e, a with
-  | .info ei, .info ai => infoAgree (some ei) (some ai) true
-  | e, a => e == a
+  | .reqInfo er, .reqInfo ar => ReqInfoAgree grace true er ar
+  | e, a => e = a
 
-def detailsAgree : List Detail → List Detail → Bool
-  | [], [] => true
-  | e :: es, a :: as => detailAgree e a && detailsAgree es as
-  | _, _ => false
-
-/-- `checkError` reports nothing (no alternative codes in the fragment) -/
-def errAgree (e a : Option Err) : Bool :=
+/-- both absent; or both present with the expected or another allowed code, the message equal
+when one is specified, the same number of details and agreeing details at every index -/
+def ErrorAgree (grace : Int) (other : List Nat) (e a : Option Err) : Prop :=
   match e, a with
-  | none, none => true
+  | none, none => True
   | some e, some a =>
-    e.code == a.code && (match e.msg with | none => true | some m => a.msg.getD "" == m) &&
-    detailsAgree e.details a.details
-  | _, _ => false
+    (e.code = a.code ∨ a.code ∈ other) ∧
+    (∀ m, e.message = some m → m = a.message.getD "") ∧
+    e.details.length = a.details.length ∧
+    ∀ x ∈ e.details.zip a.details, DetailAgree grace x.1 x.2
+  | _, _ => False
 
-def payloadsAgreeFrom : Nat → List Payload → List Payload → Bool
-  | _, [], [] => true
-  | i, e :: es, a :: as =>
-    e.data == a.data && infoAgree e.info a.info (i == 0) && payloadsAgreeFrom (i + 1) es as
-  | _, _, _ => false
+/-- a unary or client-stream error without payloads: headers and trailers may arrive merged -/
+def Mergeable (st : StreamType) (e : Result) : Prop :=
+  e.payloads = [] ∧ e.error ≠ none ∧ (st = .unary ∨ st = .clientStream)
 
-/-- `mergeHeaders`: a map keyed by lower-cased name; an entry of `a` *replaces* earlier `a`
-entries of the same name, entries of `b` append.  As an association list in first-seen order. -/
-def mergeSet (m : List Hdr) (k : String) (v : List String) : List Hdr :=
-  if m.any (·.name == k) then m.map (fun h => if h.name == k then ⟨k, v⟩ else h) else m ++ [⟨k, v⟩]
+/-- all values given for a name (up to case), in order -/
+def valuesOf (hs : List Header) (n : String) : List Val :=
+  (hs.filter (fun h => lower h.name = n)).flatMap (·.values)
 
-def mergeApp (m : List Hdr) (k : String) (v : List String) : List Hdr :=
-  if m.any (·.name == k) then m.map (fun h => if h.name == k then ⟨k, h.vals ++ v⟩ else h) else m ++ [⟨k, v⟩]
+/-- headers and trailers as one bag of metadata: for every name that occurs (a name occurring
+twice yields the same entry twice), the header values then the trailer values -/
+def mergedBag (hs ts : List Header) : List Header :=
+  ((hs ++ ts).map (fun h => lower h.name)).map (fun n => { name := n, values := valuesOf hs n ++ valuesOf ts n })
 
-def mergeHeaders (a b : List Hdr) : List Hdr :=
-  b.foldl (fun m h => mergeApp m (lower h.name) h.vals) (a.foldl (fun m h => mergeSet m (lower h.name) h.vals) [])
+def MetadataAgree (st : StreamType) (e a : Result) : Prop :=
+  (Subsumed e.headers a.headers ∧ Subsumed e.trailers a.trailers) ∨
+  (Mergeable st e ∧
+    (Subsumed (mergedBag e.headers e.trailers) a.headers ∨ Subsumed (mergedBag e.headers e.trailers) a.trailers))
 
-/-- `assert` records no discrepancy -/
-def agree (st : ST) (e a : Result) : Bool :=
-  errAgree e.err a.err && payloadsAgreeFrom 0 e.payloads a.payloads &&
-  (if e.payloads.isEmpty && e.err.isSome && (st == .unary || st == .clientStream) then
-     (subsumed e.hdrs a.hdrs && subsumed e.trls a.trls) ||
-       subsumed (mergeHeaders e.hdrs e.trls) a.hdrs || subsumed (mergeHeaders e.hdrs e.trls) a.trls
-   else subsumed e.hdrs a.hdrs && subsumed e.trls a.trls)
+/-- equal when both sides report one -/
+def StatusAgree (e a : Option Int) : Prop :=
+  ∀ x y, e = some x → a = some y → x = y
 
-end ConfModel.Echo
+/-- The reported result agrees with the expected one up to the documented leniencies. -/
+def Agree (grace : Int) (st : StreamType) (other : List Nat) (e a : Result) : Prop :=
+  ErrorAgree grace other e.error a.error ∧ PayloadsAgree grace e.payloads a.payloads ∧
+  MetadataAgree st e a ∧ StatusAgree e.httpStatus a.httpStatus
+
+/-! ### Well-formedness: names inside one header list are distinct up to case -/
+
+def NamesDistinct (hs : List Header) : Prop := (hs.map (fun h => lower h.name)).Nodup
+
+def ReqInfoWF (ri : ReqInfo) : Prop := NamesDistinct ri.headers ∧ NamesDistinct ri.queryParams
+
+def DetailWF : Detail → Prop
+  | .reqInfo ri => ReqInfoWF ri
+  | .other _ => True
+
+/-- the reported result lists every header / trailer / query-parameter name once (up to case);
+the expected response headers do too (`mergeHeaders` overwrites a repeated header name) -/
+def WellFormed (e a : Result) : Prop :=
+  NamesDistinct e.headers ∧ NamesDistinct a.headers ∧ NamesDistinct a.trailers ∧
+  (∀ p ∈ a.payloads, ReqInfoWF (p.reqInfo.getD .empty)) ∧
+  (∀ err, a.error = some err → ∀ d ∈ err.details, DetailWF d)
+
+/-! ### decidability (the driver evaluates `decide (Agree …)`) -/
+
+instance (exp act : List Header) : Decidable (Subsumed exp act) := by unfold Subsumed; exact inferInstance
+instance (g : Int) (e a : Option Int) : Decidable (TimeoutAgree g e a) := by
+  unfold TimeoutAgree; split <;> exact inferInstance
+instance (g : Int) (f : Bool) (e a : ReqInfo) : Decidable (ReqInfoAgree g f e a) := by
+  unfold ReqInfoAgree; exact inferInstance
+instance (g : Int) (e a : List Payload) : Decidable (PayloadsAgree g e a) := by
+  unfold PayloadsAgree; exact inferInstance
+instance (g : Int) (e a : Detail) : Decidable (DetailAgree g e a) := by
+  unfold DetailAgree; split <;> exact inferInstance
+instance (g : Int) (o : List Nat) (e a : Option Err) : Decidable (ErrorAgree g o e a) := by
+  unfold ErrorAgree
+  split
+  · exact inferInstance
+  · next e a =>
+    cases hm : e.message with
+    | none => exact decidable_of_iff ((e.code = a.code ∨ a.code ∈ o) ∧ e.details.length = a.details.length ∧
+        ∀ x ∈ e.details.zip a.details, DetailAgree g x.1 x.2) (by simp)
+    | some m => exact decidable_of_iff ((e.code = a.code ∨ a.code ∈ o) ∧ m = a.message.getD "" ∧
+        e.details.length = a.details.length ∧ ∀ x ∈ e.details.zip a.details, DetailAgree g x.1 x.2) (by simp)
+  · exact inferInstance
+instance (st : StreamType) (e : Result) : Decidable (Mergeable st e) := by unfold Mergeable; exact inferInstance
+instance (st : StreamType) (e a : Result) : Decidable (MetadataAgree st e a) := by
+  unfold MetadataAgree; exact inferInstance
+instance (e a : Option Int) : Decidable (StatusAgree e a) := by
+  unfold StatusAgree
+  cases e with
+  | none => exact isTrue (by simp)
+  | some x => cases a with
+    | none => exact isTrue (by simp)
+    | some y => exact decidable_of_iff (x = y) (by simp)
+instance (g : Int) (st : StreamType) (o : List Nat) (e a : Result) : Decidable (Agree g st o e a) := by
+  unfold Agree; exact inferInstance
+
+instance (hs : List Header) : Decidable (NamesDistinct hs) := by unfold NamesDistinct; exact inferInstance
+instance (ri : ReqInfo) : Decidable (ReqInfoWF ri) := by unfold ReqInfoWF; exact inferInstance
+instance (d : Detail) : Decidable (DetailWF d) := by unfold DetailWF; split <;> exact inferInstance
+instance (e a : Result) : Decidable (WellFormed e a) := by
+  unfold WellFormed
+  cases h : a.error with
+  | none => exact decidable_of_iff (NamesDistinct e.headers ∧ NamesDistinct a.headers ∧ NamesDistinct a.trailers ∧
+      (∀ p ∈ a.payloads, ReqInfoWF (p.reqInfo.getD .empty))) (by simp)
+  | some err => exact decidable_of_iff (NamesDistinct e.headers ∧ NamesDistinct a.headers ∧ NamesDistinct a.trailers ∧
+      (∀ p ∈ a.payloads, ReqInfoWF (p.reqInfo.getD .empty)) ∧ ∀ d ∈ err.details, DetailWF d) (by simp)
+
+end ConfModel.Agree
